@@ -189,6 +189,10 @@ def gen(ctx):
     for p in range(0, n + 1):
         for s in range(0, n - p + 1):
             for c in range(0, s + 1):
+                if c == s:
+                    ctx.count("edge:span first/last count==size")
+                    if c <= 3:
+                        ctx.count("edge:span first/last<Count> Count==size")
                 for op, fn in (("first", "run_first"), ("last", "run_last")):
                     C.append(("span", "span %d %d %d 1 %s %d" % (n, p, s, op, c),
                               "%s %d %d %d %d true" % (fn, n, p, s, c), (op, p, s, 0, c, True)))
@@ -204,6 +208,8 @@ def gen(ctx):
                 for c in range(0, max(0, s - o) + 1):
                     if not valid:
                         continue
+                    if o + c == s:
+                        ctx.count("edge:span subspan offset+count==size")
                     C.append(("span", "span %d %d %d 1 sub %d %d" % (n, p, s, o, c),
                               "run_sub %d %d %d %d %d true" % (n, p, s, o, c), ("sub", p, s, o, c, True)))
                     C.append(("span", "span %d %d %d 1 sub %d %d" % (n, p, s, o, DYN),
@@ -213,6 +219,8 @@ def gen(ctx):
                 for c in ((0, 1, 2, 3, 9) if (thorough or (p + s + o) % 2 == 0) else (1, 9)):
                     cc = DYN if c == 9 else c
                     valid = o <= s and (cc == DYN or cc <= s - o)
+                    if valid and cc != DYN and o + cc == s:
+                        ctx.count("edge:span subspan<O,C> O+C==size")
                     C.append(("span", "span %d %d %d %d tsub %d %d" % (n, p, s, int(valid), o, c),
                               "run_tsub %d %d %d %s %d %s %s" % (n, p, s, Z(DYN), o, Z(cc), tf(valid)), ("sub", p, s, o, cc, valid)))
                     if s == 4:
